@@ -40,6 +40,7 @@ pub const SUBS: &[SubDef] = &[
     SubDef { prop: "C01", name: "histories", oracle: histories },
     SubDef { prop: "C01", name: "long_histories", oracle: long_histories },
     SubDef { prop: "C01", name: "entry_points_raw", oracle: entry_points_raw },
+    SubDef { prop: "C01", name: "edge_matrix", oracle: edge_matrix },
 ];
 
 fn run(ctx: &Ctx) {
@@ -64,6 +65,25 @@ fn run(ctx: &Ctx) {
         ctx.run_tape("long_histories", long_histories, 200, 4000);
     }
     ctx.run_tape("entry_points_raw", entry_points_raw, ctx.pick(4_000, 200_000), 80);
+    // enumerated: every known extension / handshake / content type x declared length 0..5 x body size {0,1,2,3,5,9} x 3 fill patterns
+    let mut cases = Vec::new();
+    for kind in 0..3u8 {
+        let ntypes = match kind {
+            0 => KNOWN_EXT_TYPES.len() + 4,
+            1 => 16 + 3,
+            _ => 5 + 2,
+        };
+        for ty in 0..ntypes as u8 {
+            for len in 0..6u8 {
+                for body in [0u8, 1, 2, 3, 5, 9] {
+                    for pat in 0..3u8 {
+                        cases.push(vec![kind, ty, len, body, pat]);
+                    }
+                }
+            }
+        }
+    }
+    ctx.run_enum("edge_matrix", edge_matrix, true, "structure headers (26 known + 4 other extension types, 16 known + 3 other handshake types, 5 + 2 content types) x declared length 0..5 x body size {0,1,2,3,5,9} x 3 fill patterns, through every entry point", cases.into_iter());
 }
 
 fn k_factor() -> usize {
@@ -423,8 +443,85 @@ pub fn corrupt(t: &mut Tape, e: &Enc) -> Vec<u8> {
     b
 }
 
+/// structure headers with small / boundary length values and a body whose size need not match: the places where a
+/// `len - k`, an emptiness check or a missing confinement shows
+fn edge_headers(t: &mut Tape) -> Vec<u8> {
+    let mut e = Enc::new();
+    let small = |t: &mut Tape| -> usize {
+        match t.below(4) {
+            0 => t.below(6),
+            1 => t.pick(&[0usize, 1, 2, 3, 4, 5, 31, 32, 33, 255, 256]),
+            _ => t.below(40),
+        }
+    };
+    match t.below(5) {
+        0 | 1 => {
+            // extension: known or arbitrary type, declared length and body drawn independently
+            let ty = if t.chance(220) { KNOWN_EXT_TYPES[t.below(KNOWN_EXT_TYPES.len())] } else { t.u16b() };
+            e.u16(ty);
+            e.u16(small(t) as u16);
+            let n = small(t);
+            let body = t.bytes(n);
+            e.bytes(&body);
+        }
+        2 => {
+            let ty = if t.chance(220) { t.pick(&[0u8, 1, 2, 4, 5, 6, 11, 12, 13, 14, 15, 16, 20, 22, 24, 67]) } else { t.u8() };
+            e.u8(ty);
+            e.u24(small(t) as u32);
+            let n = small(t);
+            let body = t.bytes(n);
+            e.bytes(&body);
+        }
+        3 => {
+            e.u8(t.pick(&[0x14u8, 0x15, 0x16, 0x17, 0x18]));
+            e.u16(0x0303);
+            e.u16(small(t) as u16);
+            let n = small(t);
+            let body = t.bytes(n);
+            e.bytes(&body);
+        }
+        _ => {
+            // DTLS handshake header
+            e.u8(t.pick(&[1u8, 2, 3, 11, 14, 16]));
+            e.u24(small(t) as u32);
+            e.u16(t.u16b());
+            e.u24(if t.bool() { 0 } else { small(t) as u32 });
+            e.u24(small(t) as u32);
+            let n = small(t);
+            let body = t.bytes(n);
+            e.bytes(&body);
+        }
+    }
+    e.buf
+}
+
+/// extensions whose names are long valid UTF-8 text (the Debug impls decode them), wrapped as the entry points expect
+fn utf8_names(t: &mut Tape) -> Vec<u8> {
+    let m = if t.bool() {
+        let n = 1 + t.below(3);
+        MExt::Sni((0..n).map(|_| (0u8, t.utf8_text(700))).collect())
+    } else {
+        let n = 1 + t.below(4);
+        MExt::Alpn((0..n).map(|_| t.utf8_text(255)).collect())
+    };
+    let mut e = Enc::new();
+    match t.below(3) {
+        0 => m.encode(&mut e),
+        1 => m.encode_content(&mut e),
+        _ => {
+            // inside a ClientHello inside a record
+            let ext = m.to_bytes();
+            let ch = MHs::ClientHello { version: 0x0303, random: t.bytes(32), sid: None, ciphers: vec![0x1301], comp: vec![0], ext: Some(ext) };
+            MRecord { ctype: 0x16, version: 0x0301, msgs: vec![MMsg::Hs(ch)], padding: vec![] }.encode(&mut e);
+        }
+    }
+    e.buf
+}
+
 fn gen_input(t: &mut Tape) -> (String, Vec<u8>) {
-    match t.weighted(&[4, 1, 10, 1]) {
+    match t.weighted(&[4, 1, 10, 1, 4, 2]) {
+        4 => ("edge-headers".into(), edge_headers(t)),
+        5 => ("utf8-names".into(), utf8_names(t)),
         0 => {
             let n = match t.below(3) {
                 0 => t.below(16),
@@ -488,6 +585,48 @@ fn entry_points(t: &mut Tape, obs: &mut Obs) -> R {
     alloc::inflight_clear();
     if r? {
         obs.nontrivial(fnv64(&input));
+    }
+    Ok(())
+}
+
+/// parameter tape: [kind (0 extension, 1 handshake, 2 record), type index, declared length, body size, fill pattern]
+fn edge_matrix(t: &mut Tape, obs: &mut Obs) -> R {
+    let kind = t.u8();
+    let ti = t.u8() as usize;
+    let len = t.u8() as usize;
+    let n = t.u8() as usize;
+    let pat = t.u8();
+    let body: Vec<u8> = (0..n).map(|i| match pat { 0 => 0u8, 1 => 0xff, _ => (i as u8).wrapping_mul(37).wrapping_add(1) }).collect();
+    let mut e = Enc::new();
+    match kind {
+        0 => {
+            let ty = KNOWN_EXT_TYPES.get(ti).copied().unwrap_or([0x0a0au16, 0x1234, 2, 0xffff][ti.saturating_sub(KNOWN_EXT_TYPES.len()) % 4]);
+            e.u16(ty);
+            e.u16(len as u16);
+        }
+        1 => {
+            let known = [0u8, 1, 2, 4, 5, 6, 11, 12, 13, 14, 15, 16, 20, 22, 24, 67];
+            e.u8(known.get(ti).copied().unwrap_or([3u8, 8, 0xfe][ti.saturating_sub(16) % 3]));
+            e.u24(len as u32);
+        }
+        _ => {
+            e.u8([0x14u8, 0x15, 0x16, 0x17, 0x18, 0x19, 0x00][ti % 7]);
+            e.u16(0x0303);
+            e.u16(len as u16);
+        }
+    }
+    e.bytes(&body);
+    let input = e.buf;
+    let argbytes = vmodel::tape::fill(fnv64(&input) | 1, 1024);
+    let mut at = Tape::new(&argbytes);
+    alloc::inflight_set("C01", "entry_points_raw", &input);
+    let r = run_all(&input, &mut at, obs, "edge");
+    alloc::inflight_clear();
+    if r? {
+        obs.nontrivial(fnv64(&input));
+    }
+    if obs.wants_sample() && len != n && n > 0 {
+        obs.sample(json!({"family": "edge_matrix", "hex": hex_short(&input)}));
     }
     Ok(())
 }
